@@ -98,11 +98,12 @@ pub fn check_rtt(c: &RttCase, st: &mut Stats) -> Result<(), String> {
     let (mut samples, mut karn, mut gaps) = (0u32, 0u32, 0u32);
     // pending responses of overlapping transactions: (tid index, deliver_at)
     let mut pending: Vec<(usize, u64, u8)> = Vec::new();
-    let fail = |f: Vec<Finding>| -> Result<(), String> {
-        match f.into_iter().find(|x| x.tags.iter().any(|t| ["C15", "C06", "C11", "C05"].contains(t)) && x.known.is_none()) {
-            Some(x) => Err(format!("HARNESS-or-other-property deviation while driving the RTT history: [{}] {}", x.tags.join(","), x.msg)),
-            None => Ok(()),
-        }
+    // a deviation that belongs to another property (schedule, notifications, outcomes) ends the case without a verdict,
+    // as in the history checks: C15 judges the RTO values only
+    let foreign = |f: Vec<Finding>| -> Option<String> {
+        f.into_iter()
+            .find(|x| x.known.is_none() && !x.soft && !x.tags.contains(&"C15"))
+            .map(|x| x.tags.join(","))
     };
     for (n, t) in c.txns.iter().enumerate() {
         // deliver overdue pending responses first
@@ -128,7 +129,10 @@ pub fn check_rtt(c: &RttCase, st: &mut Stats) -> Result<(), String> {
         last_send = Some(sim.now);
         let before = sim.reqs.len();
         let f = sim.step(&Op::Send { method: 1, attrs: vec![], small_buf: false });
-        fail(f)?;
+        if let Some(t) = foreign(f) {
+            st.class(&format!("diverged-outside-focus:{}", t));
+            return Ok(());
+        }
         if sim.reqs.len() == before {
             // the request was refused: not a C15 matter
             st.class("send-refused-outside-focus");
@@ -159,7 +163,10 @@ pub fn check_rtt(c: &RttCase, st: &mut Stats) -> Result<(), String> {
         }
         for _ in 0..t.retrans.min(3) {
             let f = sim.step(&Op::Timer(TimerKind::Exact));
-            fail(f)?;
+            if let Some(t) = foreign(f) {
+                st.class(&format!("diverged-outside-focus:{}", t));
+                return Ok(());
+            }
         }
         if t.lost {
             // never answered: left to the timers (drained at the end); counts as no sample
